@@ -64,6 +64,16 @@ def do_replay(path):
         return 0
     if r.get("kind") == "driver":
         return bounded.replay_driver(r, path)
+    if r.get("key", "").startswith("bounded.") or not r.get("world"):
+        # bounded harness without a recorded input: run the harness's native search again on the current tree
+        hname = r["key"].split(".", 1)[1].split("#")[0] if r.get("key", "").startswith("bounded.") else (P.cex_for(r.get("key", "")) or "")
+        found = cex.search(hname, 0) if hname else None
+        if found and found.get("found"):
+            print(f"failing input for {hname}: {found['inputs']}  ({found.get('message')})")
+            print(f"VIOLATION property={r['property']} replay={path}")
+            return 1
+        print("no failing input on the current tree" if found is not None else "no harness to replay")
+        return 0 if found is not None and found.get("found") is False else 2
     # obligation-only replay: re-run the verifier on the current tree and report whether the obligation still fails
     w = verus_run.run_world(r["world"], repo=REPO)
     still = [v for v in w["violations"] if v["obligation"] == r["key"]]
@@ -162,6 +172,12 @@ def main():
 
     # ---------------------------------------------------------------- verdicts
     reported = 0
+    # one report per obligation / marker; prefer the entry that carries a failing input
+    dedup = {}
+    for v in violations:
+        if v["key"] not in dedup or (v.get("kind") == "input" and dedup[v["key"]].get("kind") != "input"):
+            dedup[v["key"]] = v
+    violations = list(dedup.values())
     for v in violations:
         k = known_match(known, pid, v["key"])
         if k:
@@ -173,7 +189,7 @@ def main():
             payload.update(kind=v["kind"], harness=v.get("harness"), inputs=v.get("inputs"), native=v.get("native"), driver=v.get("driver"))
         else:
             found = None
-            hname = P.cex_for(v["key"])
+            hname = v["key"].split(".", 1)[1].split("#")[0] if v["key"].startswith("bounded.") else P.cex_for(v["key"])
             if hname:
                 found = cex.search(hname, seed)
             if found and found.get("found"):
